@@ -293,7 +293,8 @@ def build_cases(tier):
     from .c11 import TransformCase
     for kw in (dict(N=2, L=1, C=0, lkinds=("both",), var_bounds="none", obj_scaler=False),
                dict(N=2, L=1, C=1, lkinds=("upper",), nkinds=("lower",), fail=True),
-               dict(N=2, L=1, C=0, lkinds=("both",), scale_form="none", obj_scaler=False)):
+               dict(N=2, L=1, C=0, lkinds=("both",), scale_form="none", obj_scaler=False),
+               dict(N=2, L=0, C=1, nkinds=("both",), scale_form="absent", obj_scaler=False)):
         k += 1
         cases.append(TransformCase(f"c13-{k:03d}", **kw))
     for mode in ("functions", "both"):
